@@ -40,6 +40,9 @@ ASSUMPTIONS = [
     "the IEEE quotient of the floats passed in (1 / 0.1 = 10.0: the cell 10 * 0.1 away lies on the ellipse; cases where the exact "
     "rational floor is one less are counted in counters.*_float_quotient_differs_from_exact_floor); the map-unit disc reading "
     "is counted, not asserted",
+    "every kernel returned by circle_kernel / annulus_kernel is overwritten in place after it has been judged (callers rescale "
+    "kernels in place) and the same call is made again inside the same case: it must return the mask again, not the array the "
+    "caller modified",
     "radius strings: spellings of the library's unit table are asserted to convert; upper-case units, 'mile' "
     "(listed in the library's error text, absent from its table), scientific notation and a bare number followed "
     "by a blank are left open (ValueError or the natural conversion are both accepted, any other value is not); "
@@ -396,6 +399,15 @@ def _kernel_problems(k, shape):
     return probs
 
 
+def _poison(k):
+    """A returned kernel belongs to the caller: once judged it is overwritten in place, so a later call that hands out the same
+    array again (a cache, a module-level buffer) fails its own mask comparison."""
+    if isinstance(k, np.ndarray) and k.flags.writeable:
+        k[...] = 7
+        return True
+    return False
+
+
 def _axis_tie(radius, cs):
     return M.semi_axis(radius, cs) != M.float_semi_axis(radius, cs)
 
@@ -452,7 +464,15 @@ def circle_space(tier):
             if not (_axis_tie(r, cx) or _axis_tie(r, cy)) and not np.array_equal(exp, M.metric_mask(cx, cy, r)):
                 out.count("circle_differs_from_map_unit_disc")
             if out.want_sample() and nontrivial:
-                out.sample({"cellsize_x": cx, "cellsize_y": cy, "radius": r, "kernel": k})
+                out.sample({"cellsize_x": cx, "cellsize_y": cy, "radius": r, "kernel": k.copy()})
+        if not probs and _poison(k):
+            k2 = ctx.circle_kernel(cx, cy, r)
+            k2 = k2.copy() if isinstance(k2, np.ndarray) else k2
+            k[...] = exp                 # put the contents back: cases stay independent of one another
+            if not (isinstance(k2, np.ndarray) and k2.shape == exp.shape and np.array_equal(k2, exp)):
+                out.violation(rank, "circle_second_call|" + ident, "circle_kernel(%r, %r, %r) called again after the caller overwrote "
+                              "the first result in place does not return the mask" % (cx, cy, r), case=describe(rank),
+                              observed=k2, expected=exp)
 
     def describe(rank):
         cx, cy, r = case(rank)
@@ -497,7 +517,15 @@ def annulus_space(tier):
                           "annulus_kernel(%r, %r, %r, %r): %s" % (cx, cy, ro, ri, msg),
                           case=describe(rank), observed=k, expected=exp)
         if not probs and out.want_sample() and nontrivial:
-            out.sample({"cellsize_x": cx, "cellsize_y": cy, "outer": ro, "inner": ri, "kernel": k})
+            out.sample({"cellsize_x": cx, "cellsize_y": cy, "outer": ro, "inner": ri, "kernel": k.copy()})
+        if not probs and _poison(k):
+            k2 = ctx.annulus_kernel(cx, cy, ro, ri)
+            k2 = k2.copy() if isinstance(k2, np.ndarray) else k2
+            k[...] = exp                 # put the contents back: cases stay independent of one another
+            if not (isinstance(k2, np.ndarray) and k2.shape == exp.shape and np.array_equal(k2, exp)):
+                out.violation(rank, "annulus_second_call|" + ident, "annulus_kernel(%r, %r, %r, %r) called again after the caller "
+                              "overwrote the first result in place does not return the mask" % (cx, cy, ro, ri),
+                              case=describe(rank), observed=k2, expected=exp)
 
     def describe(rank):
         cx, cy, ro, ri = case(rank)
